@@ -359,6 +359,18 @@ func runVDAF[M, A, AggShare, InputShare, OutShare, PrepShare, PrepState any](
 				break
 			}
 			states[i], pshares[i] = st, *ps
+			// history: the aggregator decodes the next upload into the same input-share object while
+			// this report's preparation state is still pending (here: the same share with one byte
+			// changed). What PrepInit returned must not depend on what happens to its argument later.
+			if p.Seed%2 == 0 && !applied {
+				if mm, ok := any(inR).(marshaler); ok {
+					if nb, err := mm.MarshalBinary(); err == nil && len(nb) > 9 {
+						nb[8] ^= 1
+						core.Try(func() { _ = mm.UnmarshalBinary(nb) })
+						run.Fault("history:input-share-object-reused-while-state-pending")
+					}
+				}
+			}
 		}
 		// --- aggregators exchange prep shares ---
 		var msg *count.PrepMessage
